@@ -142,10 +142,13 @@ Section Exec.
           bind (exec n (KFireAppend sd o value init) s)
                (fun s1 => Ok (set_cell s1 sd o (CList (coll_of s1 sd o ++ [value]))))
       | KCollRemove sd o value init =>
-          bind (exec n (KFireRemove sd o value init) s)
-               (fun s1 => if memb value (coll_of s1 sd o)
-                          then Ok (set_cell s1 sd o (CList (remove1 value (coll_of s1 sd o))))
-                          else Err ValueError s1)
+          (* list.remove decorator: the remove event is fired only for a member *)
+          if memb value (coll_of s sd o)
+          then bind (exec n (KFireRemove sd o value init) s)
+                    (fun s1 => if memb value (coll_of s1 sd o)
+                               then Ok (set_cell s1 sd o (CList (remove1 value (coll_of s1 sd o))))
+                               else Err ValueError s1)
+          else Err ValueError s
       | KFireAppend sd o value init =>
           exec n (KAppendEvent sd o value (match init with Some t => t | None => tok_append r sd end)) s
       | KFireRemove sd o value init =>
